@@ -329,7 +329,11 @@ func (g *exGen) tree(doc, rank, depth int) map[string]interface{} {
 		if g.r.chance(1, 12) {
 			key = g.r.pick(exSpecialNames)
 		}
-		exPlace(m, pos, key, g.slot(doc, rank, depth))
+		c := g.slot(doc, rank, depth)
+		if _, isRef := c["$ref"]; pos == "properties" && !isRef && g.r.chance(1, 3) {
+			c["x-order"] = float64(g.r.intn(4)) // the encoder then orders the properties itself (OrderSchemaItems)
+		}
+		exPlace(m, pos, key, c)
 	}
 	return m
 }
@@ -425,6 +429,21 @@ func exRandomGraph(r *rng, o exGenOpts) *exGraph {
 		g.schemaDoc = append(g.schemaDoc, false)
 		if r.chance(1, 2) {
 			g.urls = append(g.urls, r.pick([]string{"http://" + host + ":8080" + ru.Path, "https://" + host + ru.Path, "http://x" + host + ru.Path}))
+			g.schemaDoc = append(g.schemaDoc, false)
+		}
+	}
+	if nd >= 2 && !prefixSibling && r.chance(1, 6) {
+		// case twins: two documents whose locations differ only by letter case (file name or folder) are different documents
+		u := g.urls[1]
+		i := strings.LastIndex(u, "/")
+		tw := u[:i+1] + strings.ToUpper(u[i+1:i+2]) + u[i+2:]
+		if r.chance(1, 2) {
+			if j := strings.LastIndex(u[:i], "/"); j > len("file://") {
+				tw = u[:j+1] + strings.ToUpper(u[j+1:j+2]) + u[j+2:]
+			}
+		}
+		if tw != u {
+			g.urls = append(g.urls, tw)
 			g.schemaDoc = append(g.schemaDoc, false)
 		}
 	}
